@@ -276,6 +276,8 @@ structure Cfg.OK (c : Cfg) : Prop where
   res : ∀ u s, c.C u → c.orig u = some s → s ≠ "" → s ∈ c.resV
   /-- if the call can meet an initializer it can meet all initializers of that graph -/
   closed : ∀ v g u, c.C v → c.io v = some g → c.io u = some g → c.C u
+  /-- different initializers of one graph had different names when the call started -/
+  inj : ∀ g u v, c.io u = some g → c.io v = some g → c.orig u = c.orig v → u = v
 
 structure TInv (c : Cfg) (st : FixSt) : Prop where
   nr : st.raised = false
